@@ -173,6 +173,10 @@ def run(ctx):
                   "identifier order must compare the complete little-endian encodings of both operands from the most "
                   "significant byte (rev on both sides, nothing skipped): %s" % fmt(t)[:200], f.loc)
     identifier_from_u16(ctx)
+    # 4. nonces derived from given randomness (first 32 bytes -> hiding, next 32 -> binding; H3(random||share)) and
+    #    the commitments published for them: same rules as C15
+    from .c15 import rules as nonce_rules
+    nonce_rules(ctx)
     # 5. signature encodings
     f = ctx.anchor(CORE + "signature::Signature::<C>::default_serialize")
     if f:
